@@ -161,7 +161,7 @@ PROPS = {
         "case_sets": ["eval"],
         "ops": ["EVAL"],
         "oracle_clauses": [r"c02-.*", r"c05-parse", r"c05-name-capture", r"unreadable-.*"],
-        "lean_targets": ["PqlModel.Props.C02", "PqlModel.Props.C02Split", "PqlModel.Props.C05SplitRefines", "PqlModel.Props.C02Semantics", "PqlModel.Props.C02Statement", "PqlModel.Props.C02SemanticsCex", "PqlModel.Props.C05ParseStatement"],
+        "lean_targets": ["PqlModel.Props.C02", "PqlModel.Props.C02Split", "PqlModel.Props.C05SplitRefines", "PqlModel.Props.C02Semantics", "PqlModel.Props.C02Statement", "PqlModel.Props.C02SemanticsCex", "PqlModel.Props.C05ParseStatement", "PqlModel.Props.C03Full"],
         "facts": ["canAttachSortFalse"],
         "rule": "EVAL: every sequence of up to 3 (quick) / 4 (thorough) of the eleven operators with fixed small arguments, a corpus of "
                 "order-sensitive pipelines and random generated pipelines over tables T U V; the emitted SQL is evaluated by the "
@@ -175,7 +175,7 @@ PROPS = {
         "ops": ["EVAL"],
         "line_regex": r"6a6f696e",      # only pipelines that contain a join
         "oracle_clauses": [r"c03-.*", r"c05-parse", r"c05-name-capture", r"unreadable-.*"],
-        "lean_targets": ["PqlModel.Props.C03", "PqlModel.Props.C02Split", "PqlModel.Props.C05SplitRefines", "PqlModel.Props.C03Semantics", "PqlModel.Props.C03Chain", "PqlModel.Props.C03ChainTake", "PqlModel.Props.C05ParseStatement"],
+        "lean_targets": ["PqlModel.Props.C03", "PqlModel.Props.C02Split", "PqlModel.Props.C05SplitRefines", "PqlModel.Props.C03Semantics", "PqlModel.Props.C03Chain", "PqlModel.Props.C03ChainTake", "PqlModel.Props.C05ParseStatement", "PqlModel.Props.C03Full"],
         "facts": ["joinTypes", "leftJoinTableAlias", "rightJoinTableAlias"],
         "rule": "EVAL on pipelines with joins: all three kinds, bare / explicit / mixed conditions, operators before the join, "
                 "multi-operator right sides, nested and sequential joins (depth <= 2 random, corpus of shapes); evaluated as for C02; "
